@@ -173,6 +173,11 @@ def gen_purity_world(rw, rv, knobs):
     origin = [0.0, 0.0] if rw.random() < 0.7 else [rw.choice([-1.0, 0.5, 2.0]), rw.choice([-0.5, 1.0])]
     margin = rw.choice([1, 1, 2]) if min(h, w) >= 7 else 1
     style = rw.choice(["interior", "circular", "annular", "random", "random", "sparse", "band", "ellipse", "blobs"])
+    if "image_mesh" in want and rw.random() < 0.6:
+        # what the Hilbert image-mesh is specified for: a circular mask on a square frame with one pixel scale
+        w = h
+        ps = [ps[0], ps[0]]
+        style = "circular"
     m0_bits = mask_bits(rw, h, w, style, margin)
     m0 = R.add("m", {"kind": "mask2d", "shape": [h, w], "bits": m0_bits, "pixel_scales": ps, "origin": origin})
     mf = R.add("m", {"kind": "mask2d", "shape": [h, w], "bits": "0" * (h * w), "pixel_scales": ps, "origin": origin})
@@ -334,6 +339,11 @@ def gen_purity_world(rw, rv, knobs):
             if rw.random() < 0.3:
                 fit_spec["dataset_model"] = {"background_sky_level": rw.choice([0.0, 0.2]), "grid_offset": [rw.choice([0.0, 0.5]), rw.choice([0.0, -1.0])]}
             R.add("fit", fit_spec)
+            if rw.random() < 0.35:
+                # a second fit of the SAME dataset object whose noise-map is scaled (the documented override): whatever depends on the
+                # fit's noise-map must not be remembered per dataset
+                scaled = R.add("a", {"kind": "array2d", "mask": ref(m0), "input": "slim", "values": hx(rv, n0, "noise")})
+                R.add("fit", dict(fit_spec, noise_map=ref(scaled), use_mask_in_fit=rw.random() < 0.2))
             if rw.random() < 0.5:
                 # a second, identical inversion + fit and an empty Preloads: the Preloads.set_*(fit_0, fit_1) helpers as query calls
                 inv_b = R.add("inv", {"kind": "inversion", "dataset": ref(ds_masked), "objs": [ref(o) for o in objs], "settings": ref(settings) if settings else None})
@@ -378,7 +388,11 @@ def gen_purity_world(rw, rv, knobs):
                 mpm = "".join("1" if rw.random() < 0.3 else "0" for _ in range(npix))
             R.add("mv", {"kind": "mapper_valued", "mapper": ref(mp), "values": values, "mesh_pixel_mask": mpm})
         if rw.random() < 0.3:
-            R.add("fit", {"kind": "fit_imaging", "dataset": ref(ds_masked), "model": ref(R.add("a", {"kind": "array2d", "mask": ref(m0), "input": "slim", "values": hx(rv, n0, "data")}))})
+            model = R.add("a", {"kind": "array2d", "mask": ref(m0), "input": "slim", "values": hx(rv, n0, "data")})
+            R.add("fit", {"kind": "fit_imaging", "dataset": ref(ds_masked), "model": ref(model)})
+            if rw.random() < 0.5:
+                scaled = R.add("a", {"kind": "array2d", "mask": ref(m0), "input": "slim", "values": hx(rv, n0, "noise")})
+                R.add("fit", {"kind": "fit_imaging", "dataset": ref(ds_masked), "model": ref(model), "noise_map": ref(scaled)})
 
     if "simulator" in want:
         ks = [rw.choice([1, 3]), rw.choice([1, 3])]
@@ -527,6 +541,20 @@ def gen_preloads_world(rw, rv, knobs):
         s["sub_size"] = sub
         s["border"] = False
         obj_specs[0] = ("mp", s)
+    if knobs.get("harvest") and rw.random() < 0.3:
+        # "every mix of linear objects": a mapper with two function lists of DIFFERENT widths (what the linear-function dictionaries a
+        # harvest fills are indexed by)
+        def _fl(cols):
+            return ("fl", {"kind": "func_list", "mask": ref(m0), "columns": cols, "matrix": hx(rv, n0 * cols, "positive"), "reg": None, "override": None})
+
+        mappers = [x for x in obj_specs if x[0] == "mp"][:1]
+        if not mappers:
+            s = gen_mapper_spec(rw, rv, m0, (h, w), ps, adapt, False)
+            s["sub_size"] = sub
+            s["border"] = False
+            mappers = [("mp", s)]
+        widths = rw.choice([(1, 2), (2, 1), (3, 2), (2, 3), (1, 3)])
+        obj_specs = mappers + [_fl(widths[0]), _fl(widths[1])]
     rw.shuffle(obj_specs)
     L = [R.add(p, s) for p, s in obj_specs]
     L2 = [R.add(p, dict(s)) for p, s in obj_specs]  # identical copies
@@ -588,5 +616,5 @@ def gen_preloads_world(rw, rv, knobs):
         DX = R.add("di", {"kind": "dataset_interface", "data": ref(xdata), "noise": ref(xparts["noise_map"]), "grids": ref(xparts["grids"]),
                           "convolver": ref(xparts["convolver"]), "w_tilde": ref(xparts["w_tilde"])})
     meta = {"D": D, "D2": D2, "DI": DI, "DX": DX, "L": L, "L2": L2, "L3": L3, "st_w": st_w, "st_m": st_m, "src": src, "P": P, "slots": slots, "preloads_use_w_tilde": pl_use,
-            "has_mapper": has_mapper, "kernel": [ky, kx], "signed_psf": signed, "n_obj": n_obj}
+            "has_mapper": has_mapper, "kernel": [ky, kx], "signed_psf": signed, "n_obj": len(obj_specs)}
     return R.nodes, meta
